@@ -9,6 +9,7 @@ import (
 	"math/rand/v2"
 	"strconv"
 	"strings"
+	"unicode/utf8"
 
 	extv1 "k8s.io/apiextensions-apiserver/pkg/apis/apiextensions/v1"
 	kjson "k8s.io/apimachinery/pkg/util/json"
@@ -227,8 +228,8 @@ func walk(root any, segs []seg) (any, pstatus) {
 		}
 		if s.isIdx {
 			l, isL := cur.([]any)
-			if !isL {
-				return nil, stMismatch
+			if !isL || s.idx > math.MaxUint32 {
+				return nil, stMismatch // beyond 32 bits the bracketed number is read as a field name
 			}
 			if s.idx >= len(l) {
 				return nil, stMissing
@@ -706,6 +707,12 @@ func genStringT(r *rand.Rand, cur any) v1.Transform {
 			t := genString(r)
 			if cs, isS := cur.(string); isS && len(cs) > 1 && chance(r, 0.6) {
 				k := 1 + r.IntN(len(cs)-1)
+				for k < len(cs) && !utf8.RuneStart(cs[k]) {
+					k++
+				}
+				for s.Type == v1.StringTransformTypeTrimSuffix && k < len(cs) && !utf8.RuneStart(cs[len(cs)-k]) {
+					k++
+				}
 				if s.Type == v1.StringTransformTypeTrimPrefix {
 					t = cs[:k]
 				} else {
